@@ -705,40 +705,245 @@ func (x *vElRun) genPhaseLevel(r *rand.Rand) {
 					unreach[t] = true
 				}
 			}
-			var ms []*vElMsg
-			for _, m := range x.inflight {
-				if m.c == c {
-					ms = append(ms, m)
-				}
-			}
-			r.Shuffle(len(ms), func(a, b int) { ms[a], ms[b] = ms[b], ms[a] })
-			for _, m := range ms {
-				if !m.req {
-					if r.Intn(10) == 0 {
-						x.doDrop(m)
-					} else {
-						x.doDeliverRep(m)
-					}
-					continue
-				}
-				if unreach[m.t] {
-					x.doDrop(m)
-					continue
-				}
-				x.doDeliverReq(m)
-				rep := x.inflight[len(x.inflight)-1]
-				if r.Intn(12) == 0 {
-					x.doDrop(rep)
-				} else {
-					x.doDeliverRep(rep)
-				}
-			}
+			x.drivePhase(r, c, unreach, 10)
 		default:
 			if starts == 0 && len(active) == 0 {
 				return
 			}
 		}
 	}
+}
+
+
+// drivePhase: every message candidate c has in flight is delivered (request, then reply) or lost (unreachable target;
+// a reply with probability 1/lossy), in random order.
+func (x *vElRun) drivePhase(r *rand.Rand, c int, unreach map[int]bool, lossy int) {
+	var ms []*vElMsg
+	for _, m := range x.inflight {
+		if m.c == c {
+			ms = append(ms, m)
+		}
+	}
+	r.Shuffle(len(ms), func(a, b int) { ms[a], ms[b] = ms[b], ms[a] })
+	for _, m := range ms {
+		if !m.req {
+			if lossy > 0 && r.Intn(lossy) == 0 {
+				x.doDrop(m)
+			} else {
+				x.doDeliverRep(m)
+			}
+			continue
+		}
+		if unreach[m.t] {
+			x.doDrop(m)
+			continue
+		}
+		x.doDeliverReq(m)
+		rep := x.inflight[len(x.inflight)-1]
+		if lossy > 0 && r.Intn(lossy+2) == 0 {
+			x.doDrop(rep)
+		} else {
+			x.doDeliverRep(rep)
+		}
+	}
+}
+
+func (x *vElRun) startIfIdle(c int) {
+	if x.nodes[c].phase == 0 {
+		x.doStart(c)
+	}
+}
+
+// overlap pattern: X's proposal round stays open (one request still in flight) while B runs a whole candidacy that
+// X takes part in; then X's round completes, its commit round fails, and X runs again without B.
+// Parameters random; steps that are not enabled are skipped.
+func (x *vElRun) genOverlapPattern(r *rand.Rand) {
+	p := r.Perm(x.n)
+	X, B, C := p[0], p[1], p[2]
+	x.startIfIdle(X)
+	x.drivePhase(r, X, nil, 0) // vote: everybody answers
+	if x.nodes[X].phase == 2 {
+		// proposal: everything except the request to C is delivered
+		for _, m := range append([]*vElMsg{}, x.inflight...) {
+			if m.c == X && m.req && m.t != C {
+				x.doDeliverReq(m)
+				x.doDeliverRep(x.inflight[len(x.inflight)-1])
+			}
+		}
+	}
+	x.startIfIdle(B)
+	for k := 0; k < 3 && x.nodes[B].phase >= 1 && x.nodes[B].phase <= 3; k++ {
+		u := map[int]bool{C: true}
+		if x.n > 3 && r.Intn(2) == 0 {
+			u[p[3]] = true
+		}
+		x.drivePhase(r, B, u, 0)
+	}
+	if x.nodes[X].phase == 2 {
+		x.drivePhase(r, X, nil, 0) // the outstanding request: X's proposal round ends
+	}
+	if x.nodes[X].phase == 3 {
+		all := map[int]bool{}
+		for t := 0; t < x.n; t++ {
+			all[t] = r.Intn(5) != 0
+		}
+		x.drivePhase(r, X, all, 0) // commit round mostly lost
+	}
+	if r.Intn(4) == 0 {
+		x.doSave(r.Intn(x.n))
+	}
+	x.startIfIdle(X)
+	for k := 0; k < 3 && x.nodes[X].phase >= 1 && x.nodes[X].phase <= 3; k++ {
+		x.drivePhase(r, X, map[int]bool{B: true}, 0)
+	}
+}
+
+// restart pattern: X wins with a majority that contains M; M restarts from meta.pb; Y runs a candidacy without X.
+func (x *vElRun) genRestartPattern(r *rand.Rand) {
+	p := r.Perm(x.n)
+	X, M, Y := p[0], p[1], p[2]
+	x.startIfIdle(X)
+	for k := 0; k < 3 && x.nodes[X].phase >= 1 && x.nodes[X].phase <= 3; k++ {
+		u := map[int]bool{Y: r.Intn(3) != 0}
+		x.drivePhase(r, X, u, 0)
+	}
+	if r.Intn(5) == 0 {
+		x.doSave(M)
+	}
+	x.doRestart(M)
+	if x.n > 3 && r.Intn(2) == 0 {
+		x.doRestart(p[3])
+	}
+	x.startIfIdle(Y)
+	for k := 0; k < 3 && x.nodes[Y].phase >= 1 && x.nodes[Y].phase <= 3; k++ {
+		u := map[int]bool{X: true}
+		x.drivePhase(r, Y, u, 0)
+	}
+}
+
+
+// ---- replay of a given op line (canned witnesses of the Lean counterexample theorems, or VERIF_ELECT_REPLAY) ----
+
+func vElAtoi(s string) int {
+	n := 0
+	fmt.Sscanf(s, "%d", &n)
+	return n
+}
+
+func vElFromSpec(spec, dir string, logger logging.Logger) *vElRun {
+	parts := strings.Split(spec, "/")
+	x := &vElRun{n: len(parts) - 1, dir: dir, hostIdx: map[string]int{}, posted: make(chan *vElPost, 64), logger: logger}
+	for _, h := range strings.Split(strings.TrimPrefix(parts[0], "A="), ",") {
+		var id [16]byte
+		for i := 0; i < 16; i++ {
+			fmt.Sscanf(h[2*i:2*i+2], "%02x", &id[i])
+		}
+		x.palette = append(x.palette, id)
+	}
+	for i, ms := range parts[1:] {
+		f := strings.Split(ms, ":")
+		s := vElSpec{rank: vElAtoi(f[0]), weight: vElAtoi(f[1]), arbiter: vElAtoi(f[2]), own: vElAtoi(f[3]),
+			pid: uint64(vElAtoi(f[4])), cid: uint64(vElAtoi(f[5])), saved: uint64(vElAtoi(f[6]))}
+		for _, r := range strings.Split(f[7], ".") {
+			s.roles = append(s.roles, vElAtoi(r))
+		}
+		for _, v := range strings.Split(f[8], ".") {
+			s.views = append(s.views, vElAtoi(v))
+		}
+		x.spec = append(x.spec, s)
+		h := fmt.Sprintf("h%d", s.rank)
+		x.hosts = append(x.hosts, h)
+		x.hostIdx[h] = i
+	}
+	x.sps = make([][]*BinaryServerProtocol, x.n)
+	for i := 0; i < x.n; i++ {
+		x.sps[i] = make([]*BinaryServerProtocol, x.n)
+		for j := 0; j < x.n; j++ {
+			x.sps[i][j] = &BinaryServerProtocol{wbuf: make([]byte, 64)}
+		}
+	}
+	for i := 0; i < x.n; i++ {
+		x.nodes = append(x.nodes, x.buildNode(i, false))
+	}
+	return x
+}
+
+// replay executes the events of an op line on the real objects. Self requests run on their own when a phase starts, so a
+// `q<c>.<c>` token is only checked against what the harness emitted. Returns false if the line cannot be followed.
+func (x *vElRun) replay(evs []string) bool {
+	for _, ev := range evs {
+		var a, b int
+		switch {
+		case ev == "Z":
+			x.snapshot()
+		case strings.HasPrefix(ev, "xq") || strings.HasPrefix(ev, "xr"):
+			fmt.Sscanf(ev[2:], "%d.%d", &a, &b)
+			m := x.find(ev[1] == 'q', a, b)
+			if m == nil {
+				return false
+			}
+			x.doDrop(m)
+		case ev[0] == 'q':
+			fmt.Sscanf(ev[1:], "%d.%d", &a, &b)
+			if a == b {
+				continue
+			}
+			m := x.find(true, a, b)
+			if m == nil {
+				return false
+			}
+			x.doDeliverReq(m)
+		case ev[0] == 'r':
+			fmt.Sscanf(ev[1:], "%d.%d", &a, &b)
+			m := x.find(false, a, b)
+			if m == nil {
+				return false
+			}
+			x.doDeliverRep(m)
+		case ev[0] == 's':
+			a = vElAtoi(ev[1:])
+			if x.nodes[a].phase != 0 {
+				return false
+			}
+			x.doStart(a)
+		case ev[0] == 'R':
+			x.doRestart(vElAtoi(ev[1:]))
+		case ev[0] == 'S':
+			x.doSave(vElAtoi(ev[1:]))
+		default:
+			return false
+		}
+	}
+	return true
+}
+
+func (x *vElRun) find(req bool, c, t int) *vElMsg {
+	for _, m := range x.inflight {
+		if m.req == req && m.c == c && m.t == t {
+			return m
+		}
+	}
+	return nil
+}
+
+// the executions of the Lean theorems C12_monotone_counterexample, C12_monotone_with_restart_counterexample,
+// C12_one_winner_counterexample and C12_one_winner_with_restart_counterexample, replayed on the real code
+const vElLog = "A=00000000000000000000000000000000,030000004000000000f1536500000000"
+const vElC3 = vElLog + "/0:1:0:1:0:0:0:2.2.2:0.0.0/1:1:0:1:0:0:0:2.2.2:0.0.0/2:1:0:1:0:0:0:2.2.2:0.0.0"
+const vElC3r = vElLog + "/2:1:0:1:0:0:0:2.2.2:0.0.0/0:1:0:1:0:0:0:2.2.2:0.0.0/1:1:0:1:0:0:0:2.2.2:0.0.0"
+
+func vElSolo(c, t, u int) string {
+	s := fmt.Sprintf("s%d;q%d.%d;q%d.%d;r%d.%d;xq%d.%d", c, c, c, c, t, c, t, c, u)
+	for k := 0; k < 2; k++ {
+		s += fmt.Sprintf(";q%d.%d;q%d.%d;r%d.%d;xq%d.%d", c, c, c, t, c, t, c, u)
+	}
+	return s
+}
+
+var vElCanned = [][2]string{
+	{vElC3, "s0;q0.0;q0.1;r0.1;q0.2;r0.2;q0.0;q0.2;r0.2;q0.1;s1;q1.1;q1.0;r1.0;q1.2;r1.2;q1.1;q1.0;r0.1;q0.0;Z"},
+	{vElC3r, vElSolo(0, 1, 2) + ";R1;" + vElSolo(2, 1, 0) + ";Z"},
+	{vElC3, "s0;q0.0;q0.1;r0.1;q0.2;r0.2;q0.0;q0.1;r0.1;" + vElSolo(1, 0, 2) + ";q0.2;r0.2;q0.0;xq0.1;xq0.2;" + vElSolo(0, 2, 1) + ";Z"},
 }
 
 // end of a run: let every pending phase end (all remaining messages lost) so that no goroutine is left behind
@@ -811,6 +1016,27 @@ func vElectMode(t *testing.T) {
 		t.Fatal(err)
 	}
 	defer os.RemoveAll(base)
+	canned := append([][2]string{}, vElCanned...)
+	if rp := os.Getenv("VERIF_ELECT_REPLAY"); rp != "" {
+		f := strings.Fields(rp)
+		canned = [][2]string{{f[len(f)-2], f[len(f)-1]}}
+		n = 0
+	}
+	for i, cs := range canned {
+		dir := filepath.Join(base, fmt.Sprintf("canned%d", i))
+		_ = os.Mkdir(dir, 0755)
+		x := vElFromSpec(cs[0], dir, logger)
+		ok := x.replay(strings.Split(cs[1], ";"))
+		x.drainQuiet()
+		line := "elect " + cs[0] + " " + strings.Join(x.events, ";")
+		if !ok || strings.Join(x.events, ";") != cs[1] {
+			// the real code no longer takes this path (e.g. after a fix): what was executed is still compared with the
+			// model, which will disagree at the first event the code decides differently
+			t.Logf("the real code does not follow the canned op line:\n want %s\n got  %s", cs[1], strings.Join(x.events, ";"))
+		}
+		out.emit(line, strings.Join(x.obs, ";"))
+		x.monitors(out, line)
+	}
 	for i := 0; i < n; i++ {
 		dir := filepath.Join(base, fmt.Sprint(i))
 		_ = os.Mkdir(dir, 0755)
@@ -821,9 +1047,14 @@ func vElectMode(t *testing.T) {
 					t.Fatalf("elect harness: %v (events so far: %s)", e, strings.Join(x.events, ";"))
 				}
 			}()
-			if i%2 == 0 {
+			switch i % 8 {
+			case 0, 2, 4:
 				x.genPhaseLevel(r)
-			} else {
+			case 6:
+				x.genOverlapPattern(r)
+			case 7:
+				x.genRestartPattern(r)
+			default:
 				x.genMessageLevel(r)
 			}
 			if r.Intn(2) == 0 {
@@ -836,6 +1067,9 @@ func vElectMode(t *testing.T) {
 		out.emit(line, strings.Join(x.obs, ";"))
 		x.monitors(out, line)
 		_ = os.RemoveAll(dir)
+	}
+	if os.Getenv("VERIF_ELECT_REPLAY") != "" {
+		return
 	}
 	// CompareAofId / GetMajorityMemberCount differential
 	mgr := NewArbiterManager(&SLock{logger: logger}, "verif")
